@@ -22,6 +22,7 @@ import itertools
 import math
 import multiprocessing
 import random
+import re
 import struct
 import sys
 import warnings
@@ -308,8 +309,17 @@ def coq_source(table):
            'Import ListNotations.', 'Open Scope float_scope.',
            'Definition tab : list float := [%s].' % '; '.join(vlib.coqf(t) for t in table)]
     for tol in TOLS:
-        src.append('Eval vm_compute in dump_grid tab %s %d.' % (vlib.coqf(tol), NMAX))
+        src.append('Eval vm_compute in dump_grid_u tab %s %d.' % (vlib.coqf(tol), NMAX))
     return '\n'.join(src) + '\n'
+
+
+U_OFFSET = 1 << 60
+UINT = re.compile(r'(0x[0-9a-fA-F]+|\d+)%uint63')
+
+
+def parse_uints(text):
+    """integers of `list int` outputs (printed as n%uint63), shifted back by 2^60 (lib/OptLoopF.v:to_u)"""
+    return [int(t, 0) - U_OFFSET for t in UINT.findall(text)]
 
 
 class Cursor:
@@ -429,7 +439,7 @@ def run_scripted(seed, tier, extra_tables=None):
             res['coq_errors'].append({'file': name, 'out': out[-800:]})
             continue
         try:
-            model = decode_model(vlib.parse_ints(out))
+            model = decode_model(parse_uints(out))
         except Exception as ex:  # noqa: BLE001
             res['coq_errors'].append({'file': name, 'out': 'undecodable: %r' % (ex,)})
             continue
@@ -478,7 +488,8 @@ def run_scripted(seed, tier, extra_tables=None):
                                       ('zero_rel_diff', lambda v: v == 0.0)):
                         if any(pred(v) for v in vals):
                             H['special'][tag] = H['special'].get(tag, 0) + 1
-                    if len(res['samples']) < 3 and oc == 'early_stop' and n > 3 and vb and len(mo['iters']) > 2:
+                    if len(res['samples']) < 4 and oc == 'early_stop' and n > 3 and vb and len(mo['iters']) > 2 \
+                            and all(sm['shape'] != sh for sm in res['samples']):
                         res['samples'].append({'shape': sh, 'tol': tol, 'max_iter': n, 'chi2_table_head': actual[ti][:6],
                                                'model_and_impl': {'converged': mo['converged'], 'num_iterations': mo['num_iterations'],
                                                                   'entries': len(mo['iters']), 'updates': mo['updates'],
@@ -666,13 +677,22 @@ def check_real(spec, n, ffp, tols):
             if problems:
                 fail('split run differs from the single run (hidden state)', parts=parts, fields=problems,
                      single=single, split_iters=seq_iters, split_initials=initials, split_finals=finals)
-    return checks, fails, {'finite': finite, 'monotone': all(c[k + 1] <= c[k] for k in range(n)) if finite else False,
-                           'chi2': c}
+    if not finite:
+        beh = 'non-finite chi2 (singular system)'
+    elif all(c[k + 1] <= c[k] for k in range(n)):
+        beh = 'monotone decreasing'
+    elif all(c[k + 1] <= c[k] * (1 + 1e-9) for k in range(n)):
+        beh = 'increase at rounding level only'
+    elif c[n] > c[0]:
+        beh = 'diverging (final chi2 > initial)'
+    else:
+        beh = 'chi2 rises by more than rounding at some iteration'
+    return checks, fails, {'behaviour': beh, 'chi2': c}
 
 
 def run_real(seed, tier):
     rng = random.Random(seed * 7919 + 1)
-    per = 2 if tier == 'quick' else 14
+    per = 6 if tier == 'quick' else 60
     res = {'graphs': 0, 'checks': 0, 'failures': [], 'hist': {'kind': {}, 'behaviour': {}, 'n': {}, 'fix_first_pose': {}}, 'samples': []}
     tols = [0.0, 1e-4, 1e-2, 1e-1, 1e-12, 1e-8]
     for kind in ('R2', 'R3', 'SE2', 'SE3'):
@@ -692,11 +712,11 @@ def run_real(seed, tier):
                 res['graphs'] += 1
                 res['checks'] += checks
                 res['failures'] += fails
-                beh = 'non-finite' if not info['finite'] else ('monotone decreasing' if info['monotone'] else 'chi2 increases somewhere')
+                beh = info['behaviour']
                 for key, val in (('kind', kind + ('+landmarks' if lm else '')), ('behaviour', beh), ('n', n), ('fix_first_pose', ffp)):
                     res['hist'][key][str(val)] = res['hist'][key].get(str(val), 0) + 1
-                if len(res['samples']) < 2 and beh == 'chi2 increases somewhere':
-                    res['samples'].append({'kind': kind, 'n': n, 'chi2_at_states': info['chi2'], 'splits_checked': 2 ** (n - 1) - 1})
+                if len(res['samples']) < 3 and beh.startswith(('diverging', 'chi2 rises')) and all(sm['behaviour'] != beh or sm['kind'] != kind for sm in res['samples']):
+                    res['samples'].append({'kind': kind, 'behaviour': beh, 'n': n, 'chi2_at_states': info['chi2'], 'splits_checked': 2 ** (n - 1) - 1})
     return res
 
 
